@@ -45,6 +45,9 @@ pub fn set_budget(n: u64) {
     SITES.with(|s| s.borrow_mut().iter_mut().for_each(|x| *x = 0));
 }
 
+/// `RuleType as u32` of the sub-rule entered last since the last `set_budget`, or `NO_PHASE` (used to label panics)
+pub fn phase() -> u32 { PHASE.with(|p| p.get()) }
+
 /// Number of ticks since the last `set_budget`.
 pub fn ticks() -> u64 { TICKS.with(|t| t.get()) }
 
